@@ -166,10 +166,18 @@ def _only_empty_wrappers_lost(text, root, prefix):
         return False
     rr = eidlib.real_rewrite(pruned, prefix)
     r2p = eidlib.real_rewrite(prune_empty_wrappers(r2['xml']), prefix)
-    if not ('tree' in rr and 'tree' in r2p and norm(rr['tree']) == norm(r2p['tree'])):
+    if 'tree' in rr and 'tree' in r2p and norm(rr['tree']) == norm(r2p['tree']):
+        r3 = real.convert(unparse_real(r2['etree']), root, prefix=prefix)
+        return r3.get('xml') == r2['xml']
+    # the empty wrapper may also disturb its neighbour (an empty bullet '* ' swallows the next bullet's marker):
+    # causal test from the other side — the same document without its empty wrappers round-trips exactly
+    if 'tree' not in rr:
         return False
-    r3 = real.convert(unparse_real(r2['etree']), root, prefix=prefix)
-    return r3.get('xml') == r2['xml']
+    u = real.unparse_tree(rr['tree'])
+    if 'text' not in u:
+        return False
+    r4 = real.convert(u['text'], root, prefix=prefix)
+    return 'xml' in r4 and norm(r4['xml']) == norm(rr['tree'])
 
 
 def drop_by(n):
